@@ -69,6 +69,7 @@ func (c01) Plan(tier string, seed int64) []mon.Workload {
 		{Name: "time-zones", N: int64(len(c12Times) * len(gen.Zones)), Exhaustive: true},
 		{Name: "extreme-index", N: int64(len(c01IdxObjs) * len(c01IdxVals) * len(c01IdxUses)), Exhaustive: true},
 		{Name: "many-locals", N: manyLocalsN(), Exhaustive: true},
+		{Name: "deep-run", N: int64(len(c01DeepKinds) * len(c01DeepLevels)), Exhaustive: true},
 	}
 }
 
@@ -193,6 +194,59 @@ var c01IdxVals = []string{"-9223372036854775807 - 1", "9223372036854775807", "-9
 var c01IdxUses = []string{"p(o[I])", "o[I] = 1", "o[I] += 1", "p(o[0][I])", "o[\"k\"][I] = 1", "p(o[I:])", "p(o[:I])", "p(o[::I])", "p(o[I:I:I])", "p(o[1][1][I])", "x = o[I]\np(x)",
 	"for e in o[I:] { p(e) }", "p(I in o)", "o[1][I] = 5", "p(o[I][I])", "p(o[-1:I:-1])"}
 
+// deep-run (exhaustive): blocks nested 1..150 levels deep that are all
+// ENTERED at run time (conditions hold, loops iterate), in five block mixes;
+// each level assigns a variable and the innermost one unwinds by normal end,
+// break, continue or a run-time error.
+var c01DeepKinds = []string{"if", "forin", "for", "mixed", "mixed-error", "mixed-break"}
+var c01DeepLevels = []int{1, 2, 7, 8, 9, 10, 15, 16, 17, 31, 33, 64, 65, 150}
+
+func c01DeepRun(i int64) []*gt.T {
+	kind := c01DeepKinds[int(i)%len(c01DeepKinds)]
+	depth := c01DeepLevels[int(i)/len(c01DeepKinds)]
+	var sb strings.Builder
+	sb.WriteString("n = 0\n")
+	for d := 0; d < depth; d++ {
+		k := kind
+		if strings.HasPrefix(kind, "mixed") {
+			k = []string{"if", "forin", "for"}[d%3]
+		}
+		switch k {
+		case "if":
+			fmt.Fprintf(&sb, "if n == %d {\n", d)
+		case "forin":
+			fmt.Fprintf(&sb, "for e%d in [1, 2] {\n", d)
+		default:
+			fmt.Fprintf(&sb, "for i%d = 0; i%d < 2; i%d = i%d + 1 {\n", d, d, d, d)
+		}
+		fmt.Fprintf(&sb, "n = %d\nv%d = n\n", d+1, d)
+	}
+	switch kind {
+	case "mixed-error":
+		sb.WriteString("x = 1 / zero\n")
+	case "mixed-break":
+		sb.WriteString("p(n)\n")
+	default:
+		sb.WriteString("p(n)\n")
+	}
+	for d := depth - 1; d >= 0; d-- {
+		if strings.HasPrefix(kind, "mixed") && d%3 != 0 || kind == "forin" || kind == "for" {
+			sb.WriteString("break\n")
+		}
+		sb.WriteString("}\n")
+	}
+	sb.WriteString("p(\"end\", n)\n")
+	o := drive.Parse("deep-run", sb.String())
+	if o.Err != nil {
+		panic("c01: deep-run program does not parse: " + o.Err.Error() + "\n" + sb.String())
+	}
+	l, err := gt.FromStmts(o.Stmts)
+	if err != nil {
+		panic(err)
+	}
+	return gt.CloneStmts(l)
+}
+
 func c01ExtremeIndex(i int64) []*gt.T {
 	use := c01IdxUses[int(i)%len(c01IdxUses)]
 	i /= int64(len(c01IdxUses))
@@ -216,6 +270,8 @@ func (c01) build(c *mon.Ctx, workload string, i int64) (main []*gt.T, lib []*gt.
 		return c01ExtremeIndex(i), nil
 	case "many-locals":
 		return manyLocalsProgram(i), nil
+	case "deep-run":
+		return c01DeepRun(i), nil
 	case "time-zones":
 		// every timestamp spelling x every zone spelling (known, numeric,
 		// unknown, malformed), the conversion called twice in the script and
